@@ -11,7 +11,7 @@ package main
 //@ import "github.com/go-jose/go-jose/v4/jwt"
 //@ import "github.com/duo-labs/webauthn/webauthn"
 //@ import "github.com/duo-labs/webauthn/protocol"
-//@ use strings nethttp fmt oauth2 neturl time ssh crypto errors x509 keymasterd_jose pwauth cfssl math keymasterd_rate logging sync
+//@ use strings nethttp fmt oauth2 neturl time ssh crypto errors x509 keymasterd_jose pwauth cfssl math keymasterd_rate logging sync html
 
 // ---- C17: post-login redirects stay on the keymaster origin ------------------------------------
 //@ pure func noControlBytes(s string) bool = (forallIdx j int :: 0 <= j && j < len(s) ==> s[j] >= 0x20 && s[j] != 0x7f)
@@ -501,3 +501,10 @@ package main
 // the configuration loader builds the RuntimeState before any listener or goroutine that shares it exists
 //@ func loadVerifyConfigFile
 //@   lockexempt #C16.state-not-yet-shared
+
+// ---- C18: request-controlled text is never rendered as markup -----------------------------------------------
+// html/template auto-escapes every ordinary field; the only way around it is a conversion to template.HTML. Every
+// such conversion of a non-constant string, anywhere in the package, must produce one of the two fixed elements
+// below, whose only variable parts are an attribute value free of quotes and angle brackets.
+//@ import htmltemplate "html/template"
+//@ convinv html/template.HTML (s string) :: strMatchesGoRe(s, "^<INPUT TYPE=\"hidden\" id=\"login_destination_input\" NAME=\"login_destination\" VALUE=\"[^\"<>]*\">$") || strMatchesGoRe(s, "^<img src=\"data:image/png;base64,[A-Za-z0-9+/=_-]*\" alt=\"beastie.png\" scale=\"0\" />$")  #C18.inert-markup @C18
